@@ -48,6 +48,10 @@ pub struct Scenario {
 	/// hashes of the blocks the head may legitimately be after the crash:
 	/// the old head, the new head, and their ancestors
 	pub allowed_heads: Vec<String>,
+	/// two further blocks on the best chain of the uninterrupted run, delivered after the
+	/// re-delivery: recovery must leave a node that carries on like one that never crashed
+	#[serde(default)]
+	pub continuation: Vec<String>,
 }
 
 fn hex_block(b: &Block) -> String {
@@ -244,6 +248,25 @@ pub fn child(args: &[String]) -> i32 {
 				rep.insert("final_roots".into(), json!(roots_string(&chain)));
 				rep.insert("final_unspent".into(), json!(unspent_digest(&chain)));
 				rep.insert("final_validate".into(), json!(chain.validate(false).map_err(|e| format!("{:?}", e))));
+				// carry on: two more blocks, then the chain as looked up by height (header MMR) and by hash
+				let mut cont_errors = vec![];
+				for hx in &sc.continuation {
+					let b = unhex_block(hx);
+					if let Err(e) = chain.process_block(b.clone(), Options::NONE) {
+						cont_errors.push(format!("block h={}: {:?}", b.header.height, e));
+					}
+				}
+				rep.insert("continuation_errors".into(), json!(cont_errors));
+				rep.insert("continued_head".into(), json!(chain.head().map(|t| (t.height, t.last_block_h.to_hex())).map_err(|e| format!("{:?}", e))));
+				let top = chain.header_head().map(|t| t.height).unwrap_or(0);
+				let by_height: Vec<String> = (0..=top)
+					.map(|h| match chain.get_header_by_height(h) {
+						Ok(hd) => format!("{}:{}:{}", h, hd.hash().to_hex(), hd.height),
+						Err(e) => format!("{}:ERR {:?}", h, e),
+					})
+					.collect();
+				rep.insert("continued_by_height".into(), json!(by_height));
+				rep.insert("continued_roots".into(), json!(roots_string(&chain)));
 			});
 			if let Err(f) = res {
 				rep.insert("panic".into(), json!(f.msg));
@@ -465,6 +488,8 @@ fn prepare(ctx: &Ctx, r: &Recipe) -> Result<Prepared, Fail> {
 	// build the action blocks on a scratch copy so that the prepared state stays "before"
 	let mut action_blocks = vec![];
 	let mut new_nodes: Vec<usize> = vec![];
+	let mut continuation: Vec<String> = vec![];
+	let mut n_world = w.nodes.len();
 	if !r.act.is_empty() {
 		let scratch = ctx.scratch_dir("c09build");
 		cb.close();
@@ -488,6 +513,22 @@ fn prepare(ctx: &Ctx, r: &Recipe) -> Result<Prepared, Fail> {
 				Err(e) => return Err(Fail::new("valid-block-rejected", format!("act {}: {}", i, err_name(&e)))),
 			}
 		}
+		// continuation: two empty blocks on whatever is the head after the action (pushed into the world
+		// only so that the second can be built on the first; they are not part of all_blocks)
+		n_world = w.nodes.len();
+		if let Ok(t) = sb.c().head() {
+			if let Some(mut tip) = (0..w.nodes.len()).find(|i| w.nodes[*i].hash() == t.last_block_h) {
+				for i in 0..2u8 {
+					let built = w.build(sb.c(), &empty_block(0, 3), tip).map_err(|e| Fail::new("builder", format!("continuation {}: {}", i, e)))?;
+					let Ok(m) = built.verdict.clone() else { break };
+					if sb.c().process_block(built.block.clone(), Options::NONE).is_err() {
+						break;
+					}
+					continuation.push(hex_block(&built.block));
+					tip = w.push(&built, m);
+				}
+			}
+		}
 		drop(sb);
 	} else {
 		cb.close();
@@ -506,7 +547,7 @@ fn prepare(ctx: &Ctx, r: &Recipe) -> Result<Prepared, Fail> {
 			a = w.nodes[a].parent;
 		}
 	}
-	let all_blocks: Vec<String> = w.nodes.iter().skip(1).map(|n| hex_block(&n.block)).collect();
+	let all_blocks: Vec<String> = w.nodes.iter().take(n_world).skip(1).map(|n| hex_block(&n.block)).collect();
 	let scenario = Scenario {
 		kind: kind_name(r.kind).to_string(),
 		action: match r.kind {
@@ -518,6 +559,7 @@ fn prepare(ctx: &Ctx, r: &Recipe) -> Result<Prepared, Fail> {
 		action_blocks,
 		all_blocks,
 		allowed_heads: allowed.into_iter().collect(),
+		continuation,
 	};
 	std::mem::forget(cb); // keep the directory
 	Ok(Prepared { dir, scenario })
@@ -725,6 +767,16 @@ fn judge(sc: &Scenario, reference: &Value, rep: &Value) -> PResult {
 	}
 	if rep["final_validate"].get("Err").is_some() {
 		return Err(Fail::new("final-state-invalid", format!("validate(false) after re-delivery: {}", rep["final_validate"]["Err"])));
+	}
+	if !sc.continuation.is_empty() && reference["continuation_errors"].as_array().map(|a| a.is_empty()).unwrap_or(false) {
+		if rep["continuation_errors"].as_array().map(|a| !a.is_empty()).unwrap_or(true) {
+			return Err(Fail::new("continuation-rejected", format!("blocks extending the chain after recovery and re-delivery are refused: {}", rep["continuation_errors"])));
+		}
+		for k in ["continued_head", "continued_roots", "continued_by_height"] {
+			if rep[k] != reference[k] {
+				return Err(Fail::new(format!("differs-from-uninterrupted:{}", k), format!("{} after two further blocks {} != uninterrupted {}", k, rep[k], reference[k])));
+			}
+		}
 	}
 	Ok(())
 }
